@@ -92,6 +92,11 @@ def gen_sh_model_only(rng, tier):
             ops.append(sh_line(env, [t] * (n + 2), ["-"] * n + ["r%d.%d" % (rt, regs[0]), "r%d.%d" % (rt, regs[2])], ff, "-", cc))
             ops.append(sh_line(env, [43, 79, 42], ["r11.2", "r11.0", "r11.1"], ff, "-", cc))
             ops.append(sh_line(env, [79] * 10, ["-"] * 8 + ["r11.0", "s16"], ff, "-", cc))
+    # destination register = source register with a different type (conversion in place)
+    for env in ("x64l", "a64l"):
+        for st, dt in ((42, 43), (42, 80), (43, 79), (42, 70), (59, 80), (69, 80), (79, 80), (79, 79), (42, 42), (43, 42)):
+            ops.append(sh_line(env, [st], ["r11.0.%d" % dt]))
+            ops.append(sh_line(env, [40, st, st], ["r6.%d" % (6 if env == "x64l" else 1), "r11.0.%d" % dt, "r11.2.%d" % dt]))
     # light-call: mask / mmx / vector registers, conversions
     for cc in (16, 18):
         for env in ("x64l", "x86l"):
@@ -146,6 +151,15 @@ def gen_sh_model_only(rng, tier):
     return ops
 
 
+def scalar_of(t):
+    if 32 <= t <= 44:
+        return t
+    for lo in (51, 61, 71, 81, 91):
+        if lo <= t <= lo + 9:
+            return t - lo + 34
+    return 0
+
+
 def sh_key(op, m, ans=""):
     """stable key of the failing class; the three known classes are recognised by what the real code emitted"""
     w = op.split()
@@ -164,6 +178,23 @@ def sh_key(op, m, ans=""):
             return "shuffle:cross-group-swap"
         if has_xchg and small:
             return "shuffle:swap-without-extension"
+        # a vector register argument whose destination is the same register with another scalar type: no instruction writes it
+        bad_args = [int(x) for x in m[m.index("[") + 1:m.index("]")].split(",") if x.strip()] if "[" in m else []
+        written = {i.split()[1] for i in insts if len(i.split()) > 1}
+        k7 = []
+        for ai in bad_args:
+            if ai < len(dsts):
+                f = dsts[ai].split(".")
+                if dsts[ai].startswith("r") and len(f) == 3 and 9 <= int(f[0][1:]) <= 13 and \
+                        {scalar_of(types[ai]), scalar_of(int(f[2]))} == {42, 43} and ("r%s.%s" % (f[0][1:], f[1])) not in written \
+                        and not any(w.endswith("." + f[1]) and w.startswith("r1") for w in written):
+                    k7.append(ai)
+        if bad_args and len(k7) == len(bad_args):
+            return "shuffle:same-register-conversion-skipped"
+        if env.startswith("a64") and bad_args and all(
+                ai < len(dsts) and dsts[ai].count(".") == 2 and {scalar_of(types[ai]), scalar_of(int(dsts[ai].split(".")[2]))} == {42, 43}
+                for ai in bad_args):
+            return "shuffle:a64-no-extension"      # a64 emit_arg_move has no float<->double conversion either (K5)
         if any(i.lstrip("v").startswith("cvt") for i in insts):
             return "shuffle:float-conversion-inverted"
         return "shuffle:wrong-or-unextended-value:" + env
@@ -224,6 +255,20 @@ def run_shuffle(res, h, rng):
                 corr.append((ops[midx[k]], canon, mr))
         kinds["sh-model-compared"] = len(mres)
     res.coverage["sh_model_vs_impl_compared"] = len(mres)
+    # ---- runtime guard of the hypothesis of shuffle_correct_regs: every register-only initial context of the sweep satisfies WF
+    wres, _, errw = vlib.run_model("C06", ["wf0" + m[3:] for m in mops])
+    if len(wres) != len(mops):
+        res.violation("wf0 protocol failure %d/%d %s" % (len(wres), len(mops), errw[-300:]), {}, False, key="protocol")
+    else:
+        nwf = sum(1 for w in wres if w == "good")
+        badwf = [(mops[k], w) for k, w in enumerate(wres) if w.startswith("BAD") or w.startswith("bad-op")]
+        res.coverage["sh_initial_contexts_checked_WF"] = nwf
+        kinds["sh-wf0-good"] = nwf
+        kinds["sh-wf0-skip"] = sum(1 for w in wres if w.startswith("skip"))
+        if badwf:
+            o, w = min(badwf, key=lambda c: len(c[0]))
+            res.violation("the initial context init_work_data builds does not satisfy the invariant WF that shuffle_correct_regs starts from "
+                          "(%d lines), e.g. %s -> %s" % (len(badwf), o, w), {"ops": [o], "unchecked": "initWorkData_wf"}, False, key="wf0")
     res.coverage.setdefault("input_distribution", {}).update(kinds)
     res.coverage["sh_evaluations"] = len(ops)
     res.coverage["sh_nontrivial"] = len({o for o, r in zip(ops, impl) if r.startswith("ok") and r.split("|")[-1].strip()})
